@@ -99,20 +99,35 @@ pub fn run(prop: &str, tier: Tier) -> i32 {
         prop_of,
     };
     fill_report(&mut rep, plan.run(), "U(<=3) x all presentations, complete choice tree");
-    // (2) S: deviation-bounded
+    // (2) S: deviation-bounded (two deviations only on the members with <= 9 arguments)
     let plan = SweepPlan {
         graphs: s_family(),
-        presentations: if thorough { pres_small.clone() } else { vec![Presentation::Compact, Presentation::Hole] },
+        presentations: if thorough { vec![Presentation::Compact, Presentation::Hole, Presentation::Apx] } else { vec![Presentation::Compact, Presentation::Hole] },
         kinds: kinds.clone(),
         sems: all_sems(),
         certs: certs.clone(),
         lists: ArgLists::Single,
         with_lib_default: false,
-        cfgs: vec![bounded(if thorough { 2 } else { 1 }, FvPolicy::False)],
+        cfgs: vec![bounded(1, FvPolicy::False)],
         with_cadical: true,
         prop_of,
     };
-    fill_report(&mut rep, plan.run(), "S structured family, deviation-bounded");
+    fill_report(&mut rep, plan.run(), "S structured family, D<=1");
+    if thorough {
+        let plan = SweepPlan {
+            graphs: s_family().into_iter().filter(|(_, g)| g.n <= 9).collect(),
+            presentations: vec![Presentation::Compact],
+            kinds: kinds.clone(),
+            sems: all_sems(),
+            certs: certs.clone(),
+            lists: ArgLists::Single,
+            with_lib_default: false,
+            cfgs: vec![ExploreCfg { cap_alts: 16, ..bounded(2, FvPolicy::False) }],
+            with_cadical: false,
+            prop_of,
+        };
+        fill_report(&mut rep, plan.run(), "S members with <= 9 arguments, D<=2 (16 alternatives per call)");
+    }
     // (2b) sparse 5-argument frameworks (one per isomorphism class), deviation-bounded
     {
         let k = if thorough { 7 } else { 6 };
@@ -164,7 +179,7 @@ pub fn run(prop: &str, tier: Tier) -> i32 {
     }
     rep.rule = "cases = (graph, presentation, problem, encoder, argument, certificate flag) x every sequence of models the SAT oracle may return (ChoiceSat choice tree; complete for U(<=3), deviation-bounded elsewhere) plus one run with CaDiCaL; distinct_nontrivial = number of distinct (graph, semantics) pairs whose reference family has >= 2 extensions".into();
     rep.bounds = json!({
-        "universe": if thorough { "U(<=3) complete tree; S with D<=2; sparse 5-argument classes D<=2; U(4) with D<=1" } else { "U(<=3) complete tree; S with D<=1; sparse 5-argument classes D<=1; all 3044 isomorphism classes of U(4) with D<=1" },
+        "universe": if thorough { "U(<=3) complete tree; S with D<=1 (D<=2 on members with <= 9 arguments); sparse 5-argument classes D<=2; U(4) with D<=1" } else { "U(<=3) complete tree; S with D<=1; sparse 5-argument classes D<=1; all 3044 isomorphism classes of U(4) with D<=1" },
         "free_variable_policies": fvs.iter().map(|f| f.name()).collect::<Vec<_>>(),
         "cap_alternatives_per_call": 64, "cap_executions_per_query": 20000,
     });
